@@ -10,7 +10,7 @@ from .. import terms as T
 ID = "C16"
 LEVEL = "fault_enumeration"
 RULE = ("valid reference-producer streams; for each catalogued violation class, one violation is injected at EVERY eligible "
-        "position (row x term x nesting path) of the stream; a mutant is kept only if the reference decoder reports exactly "
+        "position (row x term x nesting path) of the stream (judged in shuffled order within one process); a mutant is kept only if the reference decoder reports exactly "
         "that class at exactly that row. Oracle: flat parsers of both integrations raise an Exception and what they "
         "yielded before is a prefix of the reference decoder's events before the offending row; grouped and to_graph "
         "raise. Non-trivial: every kept mutant; distinct by (class, position-kind, bytes).")
@@ -317,7 +317,11 @@ def run_case(ctx, rng, mode: str):
     base = Stream(pr.frames)
     integrations = ["generic"] if mode == "generic" else ["generic", "rdflib"]
     # rows at which an eviction already happened (for position kinds)
-    for cls, target, path, mutant in mutants(base, options, rng):
+    # judged in a PRNG-chosen order: parses that fail in the middle of a graph / statement then precede other mutants of
+    # the same stream (same options), so state wrongly kept between parses of one process becomes visible
+    todo = list(mutants(base, options, rng))
+    rng.shuffle(todo)
+    for cls, target, path, mutant in todo:
         ctx.observe(f"mutants-generated:{cls}")
         frames = mutant.frames
         res = refdec.decode(frames, strict_graphs=True)
